@@ -28,7 +28,8 @@ Definition std_object (t : string) : bool := prefix "std::string" t || prefix "s
    0 = library owned (nothing is released); a user pattern decides for itself; otherwise the case casts to the pointer's own
    type, memory obtained with new is deleted, standard-library objects are deleted, POD memory is freed *)
 Definition site_ok (cs : list rcase) (s : rsite) : bool :=
-  if Nat.eqb (rs_code s) 0 then true
+  (* code 0 = nothing to release: never for memory the wrapper itself obtained with new *)
+  if Nat.eqb (rs_code s) 0 then negb (String.eqb (rs_how s) "new")
   else match find_case (rs_code s) cs with
        | None => false
        | Some c =>
